@@ -139,7 +139,7 @@ func ruleTreeLock(r *core.Reporter) {
 			r.Violated("GetChildren/read-lock", fnPos(p, gc), "GetChildren reads the children slice without the read lock")
 		}
 	}
-	if r.Floor("stores to Item.children", n, 2) && bad == 0 {
+	if r.Floor("stores to Item.children", n, 1) && bad == 0 {
 		r.Held("children/locking", n, "%d stores under childrenMu (helpers with caller-holds: %d); locks released on all exits; GetChildren under RLock", n, len(callerHolds))
 	}
 }
